@@ -94,6 +94,8 @@ def _ioapi_case(rng):
 
 
 NP_REDUCERS = ['mean', 'sum', 'min', 'max', 'std', 'var']
+FIBREFN = {'anom': (lambda x: x - x.mean()), 'top2': (lambda x: np.sort(x)[-2:]), 'norm': (lambda x: x / (np.abs(x).sum() + 1.)),
+           'same3': (lambda x: np.convolve(x, [0.25, 0.5, 0.25], mode='same'))}
 
 
 def _direct_case(rng):
@@ -102,7 +104,25 @@ def _direct_case(rng):
     not the identity on one element; (disk) the string front end reduce_dim on a netCDF file on disk whose variables have
     missing values, whole fibres included; (derived) a file holding float variables derived from integer ones (eval, direct
     assignment) before applyAlongDimensions"""
-    k = rng.choice(['ioapi', 'ioapi', 'disk', 'derived'])
+    k = rng.choice(['ioapi', 'ioapi', 'disk', 'derived', 'callable', 'prefixdim'])
+    if k in ('callable', 'prefixdim'):
+        # callable: 1-D functions that use the whole fibre (anomaly, normalisation, the two largest values, a same-length
+        # running mean); prefixdim: the string front end on a file where another dimension's name begins with the named one
+        spec = pfile.gen_file(rng, maxlen=4, minlen=2, masked_prob=0.0 if k == 'callable' else 0.3, scalar_prob=0.0)
+        for v in spec['vars']:
+            v['dtype'] = 'd'
+        names = [d[0] for d in spec['dims']]
+        if k == 'prefixdim':
+            ren = dict(zip(names, ['lev', 'lev_edge', 'n', 'nv', 'west_east'][:len(names)]))
+            for d in spec['dims']:
+                d[0] = ren[d[0]]
+            for v in spec['vars']:
+                v['dims'] = [ren[n] for n in v['dims']]
+                v['name'] = ren.get(v['name'], v['name'])
+            names = [d[0] for d in spec['dims']]
+            return dict(kind='direct', sub=k, fns=[], spec=spec, dim=rng.choice([n for n in names if n in ('lev', 'n')]),
+                        fn=rng.choice(NP_REDUCERS), how='eval')
+        return dict(kind='direct', sub=k, fns=[], spec=spec, dim=rng.choice(names), fn=rng.choice(['anom', 'top2', 'norm', 'same3']), how='eval')
     if k == 'ioapi':
         from . import c10
         src = c10._src(rng)
@@ -110,8 +130,12 @@ def _direct_case(rng):
             src[rng.choice(['nl', 'nt', 'nr'])] = 1
         if src['kind'].startswith('griddesc'):
             src['kind'] = 'arrays'
-        d = rng.choice(['LAY', 'LAY', 'TSTEP', 'ROW', 'COL'])
-        return dict(kind='direct', sub=k, fns=[], src=src, dim=d, fn=rng.choice(NP_REDUCERS + ['first2', 'rev']))
+        d = rng.choice(['LAY', 'TSTEP', 'TSTEP', 'ROW', 'COL'])
+        fn = rng.choice(NP_REDUCERS + ['first2', 'rev', 'rev', 'cumsum'])
+        if d == 'TSTEP' and rng.random() < 0.6:
+            fn = rng.choice(['rev', 'cumsum'])      # functions that keep the number of steps
+            src['nt'] = max(src['nt'], 2)
+        return dict(kind='direct', sub=k, fns=[], src=src, dim=d, fn=fn)
     spec = pfile.gen_file(rng, maxlen=4, minlen=1 if rng.random() < 0.3 else 2, masked_prob=0.6 if k == 'disk' else 0.3)
     for v in spec['vars']:
         if v['dtype'] == 'f':
@@ -155,7 +179,16 @@ def _impl_direct(case):
                 if case['dim'] not in f.dimensions:
                     return dict(skip=True)
                 before = _snap(f)
-                g = f.applyAlongDimensions(**{case['dim']: c10.FNS.get(case['fn'], case['fn'])})
+                g = f.applyAlongDimensions(**{case['dim']: (c10.FNS.get(case['fn']) or PYFN.get(case['fn']) or case['fn'])})
+            elif case['sub'] == 'callable':
+                f = pfile.build(case['spec'])
+                before = _snap(f)
+                g = f.applyAlongDimensions(**{case['dim']: FIBREFN[case['fn']]})
+            elif case['sub'] == 'prefixdim':
+                from PseudoNetCDF.core._functions import reduce_dim
+                f = pfile.build(case['spec'])
+                before = _snap(f)
+                g = reduce_dim(f, '%s,%s' % (case['dim'], case['fn']))
             elif case['sub'] == 'disk':
                 import PseudoNetCDF as pnc
                 from PseudoNetCDF.core._functions import reduce_dim
@@ -194,6 +227,12 @@ def _oracle_direct(case, res):
         return '%s %s=%s raised %s %s' % (case['sub'], case['dim'], case['fn'], res['err'], res.get('msg'))
     dim, fn = case['dim'], case['fn']
     from . import c10
+    if case['sub'] == 'ioapi' and dim == 'TSTEP' and 'TFLAG' in res['before'] and 'TFLAG' in res['after'] and \
+            res['after']['TFLAG']['shape'][0] == res['before']['TFLAG']['shape'][0]:
+        # a function that keeps the number of steps: the time flags are still the sequence SDATE/STIME/TSTEP define
+        if res['after']['TFLAG']['data'] != res['before']['TFLAG']['data']:
+            return 'ioapi TSTEP=%s keeps the number of steps but TFLAG changed: %s -> %s' % (
+                fn, res['before']['TFLAG']['data'][:4], res['after']['TFLAG']['data'][:4])
     for k, b in res['before'].items():
         if k == 'TFLAG' or k not in res['after']:
             continue            # IOAPI regenerates the time flags (C10); variables dropped by a wrapper are C10's concern
@@ -206,6 +245,8 @@ def _oracle_direct(case, res):
             with np.errstate(all='ignore'):
                 if fn in NP_REDUCERS:
                     want = getattr(np.ma, fn)(arr, axis=ax, keepdims=True)
+                elif fn in FIBREFN:
+                    want = np.apply_along_axis(FIBREFN[fn], ax, np.ma.getdata(arr))
                 else:
                     f_ = c10.FNS.get(fn) or PYFN[fn]
                     m = np.ma.getmaskarray(arr)
